@@ -453,6 +453,47 @@ theorem update_keeps_source (data : Data) (s s' : State) (h : updateOp data s = 
   | error e => rw [hd] at h; cases h
   | ok d' => rw [hd] at h; cases h; rfl
 
+/-! ### histories on one object -/
+
+/-- **C19 (a call depends only on the source and its own arguments)**: whatever state the object is in (whatever
+    was written before, whatever calls were made before), the result of a call is determined by the source
+    document as it is now -/
+theorem step_depends_on_source (s s' : State) (op : Op) (h : s.src = s'.src) : (step s op).2 = (step s' op).2 := by
+  cases op with
+  | list => simp [step, h]
+  | update data inPlace =>
+    simp only [step, h]
+    cases updateDoc data s'.src <;> rfl
+
+theorem step_keeps_source (s : State) (op : Op) (h : op.keepsSource = true) : (step s op).1.src = s.src := by
+  cases op with
+  | list => rfl
+  | update data inPlace =>
+    simp only [Op.keepsSource, Bool.not_eq_true'] at h
+    subst h
+    simp only [step]
+    cases updateDoc data s.src <;> rfl
+
+theorem run_keeps_source (s : State) (ops : List Op) (h : ∀ op ∈ ops, op.keepsSource = true) :
+    (run s ops).src = s.src := by
+  induction ops generalizing s with
+  | nil => rfl
+  | cons op r ih =>
+    simp only [run]
+    rw [ih _ (fun o ho => h o (List.mem_cons_of_mem _ ho)), step_keeps_source s op (h op (by simp))]
+
+/-- **C19 (`history_independent`)**: after any history of listings and updates that write elsewhere, the next call
+    gives exactly what it gives on a fresh object: the second update carries nothing of the first, reads keep
+    returning what the source says -/
+theorem history_independent (s : State) (ops : List Op) (h : ∀ op ∈ ops, op.keepsSource = true) (op : Op) :
+    (step (run s ops) op).2 = (step ⟨s.src, none⟩ op).2 :=
+  step_depends_on_source _ _ op (run_keeps_source s ops h)
+
+/-- an update in place makes its output the source of the following calls -/
+theorem in_place_becomes_source (s : State) (data : Data) (d : Doc) (h : updateDoc data s.src = .ok d) :
+    (step s (.update data true)).1.src = d := by
+  simp [step, h]
+
 /-! ### the hypotheses are satisfiable -/
 
 /-- a date declaration (carrying a stale office:value) and a string declaration, next to other content;
